@@ -1,7 +1,7 @@
 (* C13  Graph bookkeeping (valences, edge total, genus) consistent over any history. *)
 From Coq Require Import ZArith List Bool Lia Arith.
 Import ListNotations.
-From CF Require Import ZSum ListAux Defs Core Machines MachinesLink PyLib Translated TranslatedLink.
+From CF Require Import ZSum ListAux Defs Core Machines MachinesLink PyLib Translated TranslatedLink PyDict ImpRep TranslatedImpCFGraph ImpLinkGraph.
 Open Scope Z_scope.
 
 (* every state reachable from the empty graph on n vertices by ANY sequence of add_edge / add_edges calls - valid or refused, either
@@ -59,3 +59,27 @@ Print Assumptions C13_source_get_genus.
 Theorem C13_source_is_loopless : forall a b, Translated.CFGraph_is_loopless a b = true <-> a <> b.
 Proof. exact is_loopless_spec. Qed.
 Print Assumptions C13_source_is_loopless.
+
+(* ---- CFGraph.add_edge and get_valence as translated from /repo's CURRENT source by tools/translate_imp.py (TranslatedImpCFGraph.v; dictionaries as
+   insertion-ordered association lists, Base/PyDict.v): on dictionaries representing a bookkeeping state that satisfies the invariant, add_edge raises
+   exactly when the model refuses, and otherwise all three fields (adjacency, per-vertex valences, total) represent the model's next state ---- *)
+Theorem C13_source_add_edge : forall gg vtv tv s a b k, ginv s -> rep_gstate gg vtv tv s ->
+  match TranslatedImpCFGraph.CFGraph_add_edge gg vtv tv a b k with
+  | None => add_edge s a b k = Err
+  | Some (gg', vtv', tv') => exists s', add_edge s a b k = Ok s' /\ rep_gstate gg' vtv' tv' s' end.
+Proof. exact add_edge_refines. Qed.
+Print Assumptions C13_source_add_edge.
+Theorem C13_source_get_valence : forall gg vtv tv s v, rep_gstate gg vtv tv s ->
+  TranslatedImpCFGraph.CFGraph_get_valence vtv v = if Nat.ltb v (gn s) then Some (nthZ (valc s) v) else None.
+Proof. exact get_valence_refines. Qed.
+Print Assumptions C13_source_get_valence.
+(* every state satisfying the invariant has such dictionaries *)
+Theorem C13_source_states_representable : forall s, ginv s -> rep_gstate (dict_of_graph (adj s)) (dict_of_div (valc s)) (tot s) s.
+Proof. intros s (Hwf & HL & _). split; [apply rep_graph_of; exact Hwf|]. split; [rewrite <- HL; apply rep_div_of|reflexivity]. Qed.
+Print Assumptions C13_source_states_representable.
+Example C13_source_nonvacuous : let s := fst (add_edges (ginit 3) [(0%nat, 1%nat, 2); (1%nat, 2%nat, 1)]) in
+  match TranslatedImpCFGraph.CFGraph_add_edge (dict_of_graph (adj s)) (dict_of_div (valc s)) (tot s) 1%nat 0%nat 1 with
+  | Some (gg', vtv', tv') => d_find 0%nat vtv' = Some 3 /\ tv' = 4 /\ (match d_find 1%nat gg' with Some r => d_find 0%nat r | None => None end) = Some 3
+  | None => False end /\
+  TranslatedImpCFGraph.CFGraph_add_edge (dict_of_graph (adj s)) (dict_of_div (valc s)) (tot s) 1%nat 1%nat 1 = None.
+Proof. vm_compute. repeat split. Qed.
